@@ -58,7 +58,7 @@ def _child_defs():
     from pydra.compose import python, shell, workflow
 
     @python.define(outputs={"out": int})
-    def Py0(x: int, k: int, fail: bool = False) -> int:
+    def Py0(x: int, k: int, fail: bool = False, dep: int = 0) -> int:
         if fail:
             raise ValueError("boom")
         return x
@@ -84,9 +84,9 @@ def _child_defs():
             cls = [Py0, Py1, Py2][nd["files"]]
             kw = {"f%d" % (i + 1): File(files[i]) for i in range(nd["files"])}
             return cls(x=x, k=nd["k"], fail=nd["fails"], **kw)
-        if kind == "split":
-            return Py0(k=nd["k"]).split(x=list(range(nd["n"]))) if nd["bad"] is None else \
-                Py0(k=nd["k"]).split(("x", "fail"), x=list(range(nd["n"])), fail=[i == nd["bad"] for i in range(nd["n"])])
+        if kind == "split":   # `dep` makes the split node wait for the node before it, like every other node of the chain
+            return Py0(k=nd["k"], dep=x).split(x=list(range(nd["n"]))) if nd["bad"] is None else \
+                Py0(k=nd["k"], dep=x).split(("x", "fail"), x=list(range(nd["n"])), fail=[i == nd["bad"] for i in range(nd["n"])])
         if kind == "sh":
             return (ShFalse if nd["fails"] else ShTrue)(x=x, k=nd["k"])
         if kind == "wf":
